@@ -63,7 +63,10 @@ def cases(ctx):
     P = 3       # the crash points of one scenario are split over P cases (load balance across shards)
     for farmer, victim in base:
         for part in range(P):
-            yield {"farmer": farmer, "victim": victim, "n": 5, "bs": 2, "shuffle": [False, True][idx % 2],
+            # the crop is defined by a batch size, or (every third scenario, and every sow/resow scenario of the raw and
+            # harvester farmers) by a number of batches that does not divide the number of cases (5 cases in 3 batches)
+            nb = 3 if (idx % 3 == 2 or (victim in ("sow", "resow") and farmer in ("raw", "harvester"))) else None
+            yield {"farmer": farmer, "victim": victim, "n": 5, "bs": 2, "nb": nb, "shuffle": [False, True][idx % 2],
                    "grown": [1] if victim.startswith("grow") else [], "idx": idx, "depth2": 0, "part": [part, P]}
         idx += 1
     for farmer, victim in base:
@@ -90,8 +93,9 @@ def cases(ctx):
                 B = -(-n // bs)
                 grown = sorted(rng.sample(range(1, B + 1), rng.randint(0, B - 1))) if victim.startswith("grow") else []
                 sh = rng.choice([False, True, 5])
+                nb = B if rng.random() < 0.35 else None
                 for part in range(2):
-                    yield {"farmer": farmer, "victim": victim, "n": n, "bs": bs, "shuffle": sh,
+                    yield {"farmer": farmer, "victim": victim, "n": n, "bs": bs, "nb": nb, "shuffle": sh,
                            "grown": grown, "idx": idx, "depth2": 3 if rep < 3 else 0, "part": [part, 2]}
                 idx += 1
 
@@ -124,6 +128,8 @@ def _new_crop(case, root):
     import xyzpy
     fn, f = _mk(case, root)
     kw = dict(name=NAME, parent_dir=root, batchsize=case["bs"])
+    if case.get("nb"):
+        kw = dict(name=NAME, parent_dir=root, num_batches=case["nb"])
     if f is None:
         return xyzpy.Crop(fn=fn, shuffle=case["shuffle"], **kw), f
     c = f.Crop(**kw)
